@@ -47,7 +47,7 @@ PendingCall(e) ==
 (* C17-KF6 (known finding, consulted in KF mode only): callers of one LruMap block each other for  *)
 (* good.  put over an existing key takes the index lock and then the node lock; evict_lru (put of  *)
 (* a new key into a full map) takes the node lock and then the index lock.  The record "hang" says *)
-(* that no call completed for 20 s while the listed calls were in flight.  Trigger: at least two   *)
+(* that no call completed for 60 s while the listed calls were in flight.  Trigger: at least two   *)
 (* calls are stuck and one of them is a put.  The strict contract has no action for "hang".        *)
 \* both findings are FIXED in /repo (39242c4): their deviations are disabled, a recurrence is a VIOLATION
 LinKnownIds == {}
